@@ -3,15 +3,17 @@ package main
 import (
 	"go/ast"
 	"go/types"
+	"strings"
 
 	"golang.org/x/tools/go/packages"
+	"golang.org/x/tools/go/ssa"
 )
 
 // C41 Child-process services answer like in-process services.
 
 func init() {
 	register(&propertyCheck{
-		id: "C41", level: "other", needs: loadNeeds{},
+		id: "C41", level: "other", needs: loadNeeds{ssa: true},
 		decides: "envelope completeness between the server and a child service process: every field of ChildServiceRequest is explicitly written where the parent builds the request and explicitly read where the child rebuilds the session; every field of ChildServiceResponse is written by the child and read by the parent. A field that is carried but never consumed (or never filled) is a part of the request / response that the child-process path silently drops.",
 		misses: "equality of status, headers and body between the two execution modes; losses inside a field's representation (single-valued header map, body as string); transport errors and timeouts.",
 		run:    runC41,
@@ -102,6 +104,82 @@ func runC41(w *World, r *Report) {
 		r.Anchor("R-C41-1", "package internal/server/services")
 
 		return
+	}
+
+	// ---- R-C41-3: sibling agreement on reading the request body
+	r.Rule("R-C41-3", "both execution modes read the request body unconditionally: in ServiceHandler and in callChildServices every path from entry to the hand-off (NewContext / running the child) passes a call that reads r.Body", 2)
+
+	readsBody := func(in ssa.Instruction) bool {
+		c, ok := in.(*ssa.Call)
+		if !ok {
+			return false
+		}
+
+		if strings.HasSuffix(callID(c.Common()), ".Close") {
+			return false
+		}
+
+		for _, a := range callArgs(c.Common()) {
+			if derivesFrom(a, func(v ssa.Value) bool {
+				fa, ok := v.(*ssa.FieldAddr)
+				if !ok || fieldName(fa.X.Type(), fa.Field) != "Body" {
+					return false
+				}
+
+				n := namedOf(fa.X.Type())
+
+				return n != nil && n.Obj().Name() == "Request" && n.Obj().Pkg() != nil && n.Obj().Pkg().Path() == "net/http"
+			}, nil) {
+				return true
+			}
+		}
+
+		return false
+	}
+
+	for _, spec := range []struct {
+		fn      string
+		handoff []string
+	}{
+		{"ServiceHandler", []string{"internal/language/bytecode.NewContext"}},
+		{"callChildServices", []string{"internal/server/services.runChildViaPipe", "internal/server/services.runChildViaFile"}},
+	} {
+		fn := w.ssaFunc(sp, spec.fn)
+		if fn == nil {
+			r.Anchor("R-C41-3", "services."+spec.fn)
+
+			continue
+		}
+
+		key := "services." + spec.fn + "|reads the request body on every path to the hand-off"
+		n := 0
+
+		hit := pathFromEntryAvoiding(fn, nil, readsBody, func(in ssa.Instruction) bool {
+			if callTo(in, spec.handoff...) != nil {
+				n++
+
+				return true
+			}
+
+			return false
+		})
+
+		has := false
+
+		allInstrs(fn, func(in ssa.Instruction) {
+			if callTo(in, spec.handoff...) != nil {
+				has = true
+			}
+		})
+
+		switch {
+		case !has:
+			r.Anchor("R-C41-3", "hand-off call in services."+spec.fn)
+		case hit != nil:
+			r.Violate("R-C41-3", key, w.pos(hit.Pos()), "the service is run on a path where the request body was not read: a request whose body is read only under a condition (a declared Content-Length, a method) reaches the service with an empty body in this mode and with its body in the other")
+		default:
+			r.Discharge("R-C41-3", key, w.pos(fn.Pos()), "")
+		}
 	}
 
 	for _, spec := range []struct{ rule, typ string }{{"R-C41-1", "ChildServiceRequest"}, {"R-C41-2", "ChildServiceResponse"}} {
